@@ -22,7 +22,7 @@ type propC12 struct{}
 func init() {
 	Register(propC12{})
 	meta["C12"] = propMeta{
-		Rule: "A case is one world: generated program + configuration compiled in ReportEvent or Debug mode under one option subset, one call (Eval or TryEval, with identity-keyed operator/fetch failures and, for TryEval, unavailable variables), a channel capacity in {0,1,2,3,8,ample} and a consumer plan (seeded: when to receive, when to re-inspect retained events). Every world runs INLINE with an ample buffer (events read only after the call returned); 40% also run in a synctest BUBBLE where the scheduler is the consumer. Checked: result and Dump equal those of the same source compiled without event options; OP_EXEC events of user operators equal the seam log (arguments deep-equal to the copy taken inside the callback); OP_EXEC events, in order, match the operator applications of the L2R reference on the Dump tree with their arguments and results (and/or applications optional); built-in events are self-consistent at late inspection; every retained event still equals its at-receipt copy at every later inspection; LOOP positions strictly increase, at most node-count; the evaluator finishes once the consumer drains. evaluations = calls into the library. non-trivial = distinct worlds whose call produced at least two OP_EXEC events and whose program has and/or/if.",
+		Rule: "A case is one world: generated program + configuration compiled in ReportEvent or Debug mode under one option subset, one call (Eval or TryEval, with identity-keyed operator/fetch failures and, for TryEval, unavailable variables), a channel capacity in {0,1,2,3,8,ample} and a consumer plan (seeded: when to receive, when to re-inspect retained events). Every world runs INLINE with an ample buffer (events read only after the call returned); 40% also run in a synctest BUBBLE where the scheduler is the consumer. Checked: result and Dump equal those of the same source compiled without event options; OP_EXEC events of user operators equal the seam log (arguments deep-equal to the copy taken inside the callback); OP_EXEC events, in order, match the operator applications of the L2R reference on the Dump tree with their arguments and results (and/or applications optional); built-in events are self-consistent at late inspection; every retained event still equals its at-receipt copy at every later inspection; LOOP positions strictly increase, at most node-count; after all calls the consumer overwrites and appends to every stack snapshot and argument list it received, one event at a time: no other event it holds changes and a further evaluation gives the unchanged result (snapshots are private); the evaluator finishes once the consumer drains. evaluations = calls into the library. non-trivial = distinct worlds whose call produced at least two OP_EXEC events and whose program has and/or/if.",
 		Assumptions: []string{
 			"whether the engine calls the and/or function itself or decides it by jumping is not fixed by the statement: and/or applications are optional slots in the order check",
 			"the application-order check applies to Eval; for TryEval the seam-log, self-consistency, intactness and LOOP checks apply",
@@ -30,7 +30,7 @@ func init() {
 			"sampling: a clean batch is evidence, not proof",
 		},
 		Engines:    []string{"INLINE (ample buffer, late inspection)", "BUBBLE (testing/synctest; scheduler = consumer)"},
-		FaultKinds: []string{"get_error (by name)", "op_error (by operator+arguments)", "unavailable", "chan_capacity", "consumer_delay", "consumer_retain"},
+		FaultKinds: []string{"get_error (by name)", "op_error (by operator+arguments)", "unavailable", "chan_capacity", "consumer_delay", "consumer_retain", "consumer_write"},
 	}
 }
 
@@ -392,6 +392,38 @@ func (pr propC12) Run(w *World, st *Stats) *Violation {
 					return viol(only(i), "retained-event-clobbered", "event %d of call %d read %q when received; after call %d it reads %q", k, j, eventStr(recs[j].copies[k]), i, eventStr(recs[j].kept[k]))
 				}
 			}
+		}
+	}
+	// A consumer may do what it likes with what it has received (redact values
+	// before logging, append to a snapshot): every stack snapshot and every
+	// argument list is private to its event, so nothing else the consumer holds,
+	// and no later evaluation, may change when it writes to one.
+	for j := range recs {
+		kept := recs[j].kept
+		for k := range kept {
+			scribble(kept[k])
+			hi := len(kept)
+			if hi > k+1+32 {
+				hi = k + 1 + 32
+			}
+			for m := k + 1; m < hi; m++ {
+				if !eventsEqual(kept[m], recs[j].copies[m]) {
+					return viol(only(j), "snapshot-shared", "the consumer overwrote the slots of event %d of call %d (%s) and appended to it; event %d, which read %q when received, now reads %q",
+						k, j, eventStr(recs[j].copies[k]), m, eventStr(recs[j].copies[m]), eventStr(kept[m]))
+				}
+			}
+		}
+	}
+	st.Faults["consumer_write"]++
+	if n := len(recs); n > 0 && w.Extra["swap_chan"] != "1" {
+		r := recs[n-1]
+		again := c.Run(ops, r.p, "eval")
+		st.Evals++
+		if again.Panic != nil {
+			return viol(w, "panic", "%s panicked after the consumer wrote to the events of earlier calls: %v\n%s", r.p.Kind, again.Panic, again.Stack)
+		}
+		if d := sameOutcome(&r.base, &again); d != "" {
+			return viol(w, "result-changed", "after the consumer wrote to events it had received, call %d (%s) gives a different result: %s", n-1, r.p.Kind, d)
 		}
 	}
 	if totalOps >= 2 && hasControl(w.Prog) {
